@@ -9,6 +9,6 @@ import (
 
 const hooksCompiled = false
 
-func treeInvariants(route.Tree) string                       { return "" }
-func flameTreeInvariants(*flamego.Flame, string) string     { return "" }
-func staticTableInvariant(*flamego.Flame) (int, string)     { return 0, "" }
+func treeInvariants(route.Tree) string                  { return "" }
+func flameTreeInvariants(*flamego.Flame, string) string { return "" }
+func staticTableInvariant(*flamego.Flame) (int, string) { return 0, "" }
